@@ -19,6 +19,7 @@ type Case struct {
 	S    string  `json:"s"`
 	D    string  `json:"d"`
 	Amps []int64 `json:"amps"`
+	Pad  int     `json:"pad,omitempty"` // the amplitudes are repeated cyclically up to this buffer length
 }
 
 // Pairs are the 121 fixed-to-fixed instantiations.
@@ -36,7 +37,13 @@ func Check(c *Case) (res kit.Result) {
 	}
 	ds, dd := e.S.Bits, e.D.Bits
 	lo, hi := numkit.Lo(ds), numkit.Hi(ds)
-	in := append([]int64{lo, 0, hi}, c.Amps...)
+	if c.Pad < 0 || c.Pad > 1<<20 {
+		return
+	}
+	in := kit.PadInts(append([]int64{lo, 0, hi}, c.Amps...), c.Pad)
+	if c.Pad > len(c.Amps)+3 {
+		res.Class("paddedToLongBuffer")
+	}
 	for _, a := range in {
 		if a < lo || a > hi {
 			return kit.Result{}
@@ -83,6 +90,7 @@ func FP(c *Case) uint64 {
 	h.Str(c.S)
 	h.Str(c.D)
 	h.Int(len(c.Amps))
+	h.Int(c.Pad)
 	for _, a := range c.Amps {
 		h.U64(uint64(a))
 	}
@@ -98,6 +106,7 @@ func Gen(t *rapid.T) *Case {
 		e = Pairs[rapid.IntRange(0, len(Pairs)-1).Draw(t, "pair2")]
 	}
 	c := &Case{S: e.S.Name, D: e.D.Name}
+	c.Pad = kit.GenPad(t)
 	n := rapid.IntRange(2, 24).Draw(t, "n")
 	base := kit.GenAmp(t, e.S.Bits, bAmps[e.S.Bits])
 	for i := 0; i < n; i++ {
